@@ -13,7 +13,7 @@ func init() {
 		Explanation: "Decides the hand-off and batching mechanics between the FSM proposer and the gossip sender: (R1) the only sender on the snapshots channel is the loop of RaftNode.AddBulk, which sends once per element of the FSM response, unconditionally, a pointer to a per-iteration copy (no aliasing between elements); " +
 			"(R2) batcher conservation and bound: the flush-if-full test on len(batch) vs BatchSize precedes the append of the received snapshot and its full edge replaces the batch before the append; every publish carries the encoding of the current batch and is followed by a fresh batch before the next receive; the timer publishes only a non-empty batch; the received snapshot is appended on every path; " +
 			"(R3) the signature is computed over the whole snapshot value and paired with that same snapshot, through no state shared between batchers; (R4) the batch is local to its goroutine; (R5) Sign uses the private key and the message, Verify the public key, message and signature in that order.",
-		Added:       "Also (R2) the message bus hands every published message over with a blocking send; (R3) the snapshot type has no formatter method; (R5) the signer constructor succeeds only after its test verification.",
+		Added:       "Also (R2) the message bus hands every published message over with a blocking send; (R3) the snapshot type has no formatter method; (R5) the signer constructor succeeds only after its test verification. Third round: (R5) Verify's result depends on the message it was given.",
 		Assumptions: []string{"ed25519", "Go channels deliver each value once"},
 		Declined:    "no loss/duplication for all arrival timings as a statement over schedules; that any modified field or signature byte stops verification (cryptography).",
 	}, runC17)
@@ -145,7 +145,9 @@ func runC17(c *Ctx) {
 		c.Fail("R1", "snapshots-channel", ab.Pos(), "nothing is sent on the snapshots channel")
 	}
 	add := p.MustMethod(pkgConsensus, "RaftNode", "Add")
-	delegates := len(callsIn(add, func(k *ssa.CallCommon) bool { return k.StaticCallee() == ab })) == 1
+	delegates := len(callsIn(add, func(k *ssa.CallCommon) bool {
+		return k.StaticCallee() != nil && pureForwardTarget(k.StaticCallee()) == ab
+	})) == 1
 	c.Check(delegates, "R1", funcName(add), add.Pos(), "Add delegates to AddBulk (and does not send itself)", "RaftNode.Add no longer delegates to AddBulk")
 	// the published batch reaches the gossip layer: the bus hands every message to its subscribers
 	blockingDelivery(c, "R2", p.MustMethod("gossip", "MessageBus", "Publish"), "a published message")
@@ -237,11 +239,11 @@ func runC17(c *Ctx) {
 	vf := p.MustMethod("crypto/sign", "Ed25519Signer", "Verify")
 	okS, okV := false, false
 	for _, rt := range p.ReturnTerms(sg) {
-		t := rt[0]
+		t := p.XLocal(rt[0], sg)
 		okS = t.Op == "call" && t.Fn != nil && t.Fn.Name() == "Sign" && t.Args[0].IsField("privateKey", isParam(sg, 0)) && t.Args[1].IsParam(sg, 1)
 	}
 	for _, rt := range p.ReturnTerms(vf) {
-		t := rt[0]
+		t := p.XLocal(rt[0], vf)
 		okV = t.Op == "call" && t.Fn != nil && t.Fn.Name() == "Verify" && t.Args[0].IsField("publicKey", isParam(vf, 0)) && t.Args[1].IsParam(vf, 1) && t.Args[2].IsParam(vf, 2)
 	}
 	c.Check(okS, "R5", funcName(sg), sg.Pos(), "ed25519.Sign(privateKey, message)", "Sign does not return ed25519.Sign(s.privateKey, message)")
@@ -354,13 +356,28 @@ func c17Batcher(c *Ctx, bt *ssa.Function) {
 			sel = in
 		}
 	})
+	// the select's cases by what they wait for, not by position
+	recvCase, timerCase := "-1", "-1"
+	if ss, ok := sel.(*ssa.Select); ok {
+		for i, st := range ss.States {
+			ct := p.TermOf(st.Chan)
+			switch {
+			case ct.Has(func(x *Term) bool {
+				return x.Op == "call" && x.Fn != nil && x.Fn.Pkg != nil && x.Fn.Pkg.Pkg.Path() == "time"
+			}):
+				timerCase = fmt.Sprint(i)
+			case st.Dir == types.RecvOnly && ct.IsParam(bt, len(bt.Params)-1):
+				recvCase = fmt.Sprint(i)
+			}
+		}
+	}
 	if sel != nil {
-		// first block of the receive branch: the one dominated by EQ(0, select#0)
+		// first block of the receive branch: the one dominated by EQ(k, select#0), k the case receiving from the snapshots channel
 		var recvEntry *ssa.BasicBlock
 		for _, b := range bt.Blocks {
 			cs := p.CondsAt(b)
 			if hasCond(cs, func(k Cond) bool {
-				return k.Pol && k.Atom.Op == "EQ" && k.Atom.Has(func(x *Term) bool { return x.Op == "select" }) && (k.Atom.Args[0].Name == "0" || k.Atom.Args[1].Name == "0")
+				return k.Pol && k.Atom.Op == "EQ" && k.Atom.Has(func(x *Term) bool { return x.Op == "select" }) && (k.Atom.Args[0].Name == recvCase || k.Atom.Args[1].Name == recvCase)
 			}) && (recvEntry == nil || b.Dominates(recvEntry)) {
 				recvEntry = b
 			}
@@ -393,7 +410,7 @@ func c17Batcher(c *Ctx, bt *ssa.Function) {
 		// timer flush only when non-empty
 		cs := rg.Conds(ri)
 		if hasCond(cs, func(k Cond) bool {
-			return k.Atom.Op == "EQ" && k.Atom.Has(func(x *Term) bool { return x.Op == "select" }) && (k.Atom.Args[0].Name == "1" || k.Atom.Args[1].Name == "1") && k.Pol
+			return k.Atom.Op == "EQ" && k.Atom.Has(func(x *Term) bool { return x.Op == "select" }) && (k.Atom.Args[0].Name == timerCase || k.Atom.Args[1].Name == timerCase) && k.Pol
 		}) {
 			nonEmpty := hasCond(cs, func(k Cond) bool {
 				return k.Pol && k.Atom.Op == "LT" && k.Atom.Args[0].Name == "0" && k.Atom.Args[1].Op == "builtin" && k.Atom.Args[1].Name == "len" ||
